@@ -148,7 +148,15 @@ func genC06(t *rapid.T, tier string) (*World, any) {
 		default:
 			// the first letter is never a pair key, so no entry is rewritten into nothing
 			e := pick(t, []string{"a", "b", "c", "d"}, "fw0") + drawWord(t, 0, 3, "fw")
-			if chance(t, 55, "fend") {
+			if chance(t, 6, "ftrail") {
+				// white space at the end of an entry belongs to the entry (`git ` is not `git`); both may be listed
+				if chance(t, 50, "ftrail-both") {
+					fLines = append(fLines, e)
+					fEntries = append(fEntries, e)
+				}
+				e += pick(t, []string{" ", "\t"}, "ftrailv")
+				feat["trailing-blank-entry"] = true
+			} else if chance(t, 55, "fend") {
 				e += pick(t, endings, "fe")
 			} else if chance(t, 15, "fesc") {
 				e += pick(t, []string{`\@`, `\.s`, `\-x`}, "fescv") // an escaped character right before / as the ending
@@ -603,7 +611,7 @@ func init() {
 	register(&Property{
 		ID:          "C06",
 		Level:       "exploration",
-		Rule:        "scenario = word-list include file F (1-12 entries, thorough up to 60; duplicates, blank lines, comments, F-local definitions) x `include` or `include-except` with 1-3 exclude files (empty, disjoint, overlapping, larger than F, using F's definitions) x 0-3 suffix pairs (disjoint, overlapping keys s/es/tes, cascades s->t t->u, \"\" deletions), at top level or inside an assemble block, with neighbouring entries x identity + 2 / 5 seeded schedules over the pair-map and include-map sites; oracles: (membership) every entry the reference model keeps matches the generated regex and no other word of the universe (F, exclusions, rewritten and unrewritten forms) does; (order) byte equality with the program that has the model's result typed in place, when F has no duplicates and no pairs compete. Non-trivial = every scenario (each runs the directive); distinct = distinct (world, program, schedules).",
+		Rule:        "scenario = word-list include file F (1-12 entries, thorough up to 60; duplicates, blank lines, comments, F-local definitions) x `include` or `include-except` with 1-3 exclude files (empty, disjoint, overlapping, larger than F, using F's definitions) x 0-3 suffix pairs (disjoint, overlapping keys s/es/tes, cascades s->t t->u, \"\" deletions), at top level or inside an assemble block, with neighbouring entries, (20%) under an `i` flag line of the including file, then also with entries that differ in case only x identity + 2 / 5 seeded schedules over the pair-map and include-map sites; oracles: (membership) every entry the reference model keeps matches the generated regex and no other word of the universe (F, exclusions, rewritten and unrewritten forms) does; (order) byte equality with the program that has the model's result typed in place, when F has no duplicates and no pairs compete. Non-trivial = every scenario (each runs the directive); distinct = distinct (world, program, schedules).",
 		Gen:         genC06,
 		Eval:        evalC06,
 		QuickChecks: 1200, ThoroughChecks: 20000, Timeout: 20 * time.Second,
